@@ -34,6 +34,7 @@ def generate(rng, tier):
     for _ in range(700 * n):
         p = sc.gen_static(rng, n_leaves=rng.randint(1, 5), nest_depth=rng.choice([0, 0, 2]), faults=False,
                           tocks=rng.choice(["any", "dyadic"]), limit_p=0.7)
+        sc.add_opt_always(rng, p)
         out.append(p)
     # histories: several runs on one Doist (doers given at construction or to the first do(), then do()
     # again with/without a new limit and tyme)
@@ -103,7 +104,7 @@ def _oracle_broad(case, obs):
             ending[i] = "open"
     # (an always-DoDoer's done means "all its deeds completed" while it keeps running — the tree's own
     # test_dodoer_always documents done True for one stopped by the limit — so it is outside both rules)
-    always = {int(i) for i, d in case["defs"].items() if d["kind"] == "nest" and d["always"]}
+    always = {int(i) for i, d in case["defs"].items() if d["kind"] == "nest" and sc.eff_always(d)}
     for i, k in ending.items():
         if k in ("Cease", "Abort") and dones.get(i) is True and i not in always:
             return f"doer {i}'s last lifecycle ended by {k} but its done is True"
